@@ -77,7 +77,7 @@ func c18probe(env *Env, src string, want bool) c18obs {
 }
 
 func runC18(c *Check, rng *rand.Rand) {
-	c.Rule = "clients bound to 127.0.0.2..9 (127.0.0.1 stays listed for the harness's own witness); random histories of whitelist file edits {add, remove, enable, disable, replace all, in-place rewrite, write-temp + rename over the file, rapid double edit}; after each edit the admitted set is polled (each source connects and immediately sends a pipeline) and must equal the file's set, stable for two consecutive polls, within 8 s; lane 0 runs with the delay hook authip.afterEnable armed (a reload takes 250 ms) and issues double edits 0-450 ms apart; rejected = closed without a single reply byte and nothing at any backend; bulk replacements: the list is replaced by one that shares 3 addresses with it (300-1500 loopback addresses leave, 0-1500 others enter) and afterwards EVERY address that left or entered is probed (none that left may still be served, none that entered still refused, 6 s later); distinct = (edit kind, write method, resulting set)"
+	c.Rule = "clients bound to 127.0.0.2..9 (127.0.0.1 stays listed for the harness's own witness); random histories of whitelist file edits {add, remove, enable, disable, a version without the enable key, replace all, in-place rewrite, write-temp + rename over the file, rapid double edit}; after each edit the admitted set is polled (each source connects and immediately sends a pipeline) and must equal the file's set, stable for two consecutive polls, within 8 s; lane 0 runs with the delay hook authip.afterEnable armed (a reload takes 250 ms) and issues double edits 0-450 ms apart; rejected = closed without a single reply byte and nothing at any backend; bulk replacements: the list is replaced by one that shares 3 addresses with it (300-1500 loopback addresses leave, 0-1500 others enter) and afterwards EVERY address that left or entered is probed (none that left may still be served, none that entered still refused, 6 s later); distinct = (edit kind, write method, resulting set)"
 	c.Assumptions = []string{"'within a few seconds' restated as <= 8 s after the edit completed (file watcher latency is milliseconds)"}
 	lanes := c.Pick(2, 8)
 	edits := c.Pick(8, 25)
@@ -367,6 +367,7 @@ func c18lane(c *Check, rng *rand.Rand, lane, edits int) {
 	if !verify("initial") {
 		return
 	}
+	omitEnable := false // the next write leaves the "enable" key out
 	extra := 0 // filler addresses (outside 127.0.0.0/8) added to the next write
 	forceDup := false
 	write := func(method string) {
@@ -380,6 +381,11 @@ func c18lane(c *Check, rng *rand.Rand, lane, edits int) {
 		}
 		extra = 0
 		content := []byte(WhiteListYAML(st.enable, ips))
+		if omitEnable {
+			// the file no longer mentions "enable" at all: the whitelist is off
+			content = []byte(strings.Replace(string(content), "enable: false\n", "", 1))
+			omitEnable = false
+		}
 		switch method {
 		case "rewrite-in-place":
 			must(os.WriteFile(file, content, 0o644), "write whitelist")
@@ -398,9 +404,9 @@ func c18lane(c *Check, rng *rand.Rand, lane, edits int) {
 	}
 	methods := []string{"rewrite-in-place", "rename-over", "truncate-then-write"}
 	for e := 0; e < edits; e++ {
-		kind := c18nextKind(rng)
-		if hooked && rng.Intn(2) == 0 {
-			kind = "double"
+		kind := "double"
+		if !hooked || rng.Intn(2) == 0 {
+			kind = c18nextKind(rng)
 		}
 		method := methods[rng.Intn(len(methods))]
 		apply := func(k string) {
@@ -432,6 +438,9 @@ func c18lane(c *Check, rng *rand.Rand, lane, edits int) {
 				st.enable = true
 			case "disable":
 				st.enable = false
+			case "omit-enable": // after an enabled version: a version without the key
+				st.enable = false
+				omitEnable = true
 			case "replace-all":
 				st.list = map[string]bool{"127.0.0.1": true}
 				for _, ip := range c18sources {
@@ -463,6 +472,15 @@ func c18lane(c *Check, rng *rand.Rand, lane, edits int) {
 			apply("remove")
 			write(method) // one address fewer, but (with the repeated lines) not fewer lines
 			forceDup = false
+		} else if kind == "omit-enable" {
+			// an enabled version with at least one address missing, then a version that does
+			// not mention "enable" at all (= off: everyone is served)
+			st.enable = true
+			apply("remove")
+			write(method)
+			time.Sleep(300 * time.Millisecond)
+			apply("omit-enable")
+			write(method)
 		} else if kind == "double" {
 			apply("add")
 			write(methods[rng.Intn(len(methods))])
@@ -501,7 +519,7 @@ func c18nextKind(rng *rand.Rand) string {
 	c18deckMu.Lock()
 	defer c18deckMu.Unlock()
 	if len(c18deck) == 0 {
-		c18deck = []string{"add", "remove", "swap-one", "enable", "disable", "replace-all", "same", "double", "double-long-then-short", "remove-one-of-duplicates", "remove", "swap-one"}
+		c18deck = []string{"add", "remove", "swap-one", "enable", "disable", "omit-enable", "enable", "replace-all", "same", "double", "double-long-then-short", "remove-one-of-duplicates", "remove", "swap-one"}
 		rng.Shuffle(len(c18deck), func(i, j int) { c18deck[i], c18deck[j] = c18deck[j], c18deck[i] })
 	}
 	k := c18deck[0]
